@@ -132,6 +132,10 @@ pub fn replay(ctx: &mut Ctx, stage: &str, case: &Value) -> Check {
         if data.len() < 9 {
             return Ok(());
         }
+        let declared = u32::from_be_bytes([data[1], data[2], data[3], data[4]]) as usize;
+        if declared == 1 || declared > data.len() - 1 {
+            return Ok(());
+        }
         let mut runner = crate::gen::fixed_runner(7);
         let specs: Vec<Spec> = KINDS.iter().map(|k| crate::gen::draw(&boxes::strategy(k, 1), &mut runner)).collect();
         let spec = &specs[data[0] as usize % specs.len()];
